@@ -59,6 +59,7 @@ Section Main.
     - apply step_propose; assumption.
     - apply step_ack; assumption.
     - apply step_selfack; assumption.
+    - apply step_setvotes; assumption.
     - apply step_lower; assumption.
     - eapply step_commit; eassumption.
     - apply step_append; assumption.
